@@ -30,7 +30,7 @@ LEVEL_TEXT = ("Real runs of lengths 1-12 with output periods 1-4 and all plug-in
               "time, release, forcing, [output iff step >= 0], tracker, ibm - each exactly once - and close exactly once per module that has one.")
 LEVEL_NOTE = "The two traces are recorded by different mechanisms (wrappers vs interpreter events) and must agree call for call; a run whose tracer saw zero anchored calls is inconclusive."
 RULE = ("case = (variant, steps, period, plug-in spelling, warm/cold, kill schedule). Non-trivial: at least 2 steps and a release after the first step or an IBM kill; distinct by parameters.")
-MANDATORY = ["steps_parsed", "traces_agree", "plugin_relative", "plugin_absolute", "plugin_with_py", "plugin_subdir", "plugin_module_name", "decoy_present", "warm_start_runs",
+MANDATORY = ["plugin_section_with_module_only", "steps_parsed", "traces_agree", "plugin_relative", "plugin_absolute", "plugin_with_py", "plugin_subdir", "plugin_module_name", "decoy_present", "warm_start_runs",
              "output_plugin_runs", "forcing_plugin_runs", "coded_scalar_values_checked", "ibm_positions_checked", "kills_checked", "late_release_in_record", "close_calls_checked"]
 ASSUMPTIONS = ["state and time have no close by design; close is required exactly once only for modules that define one"]
 MIN_CASES_PER_PROCESS = 4  # several runs share one interpreter: state leaking between runs (module caches, shared defaults) becomes observable
@@ -164,20 +164,21 @@ def run_case(case: dict[str, Any], wd: Path) -> dict[str, Any]:
         modspec[role] = spell(wd, name, sp)
     sit["plugin_" + {"relative": "relative", "relative_py": "with_py", "absolute": "absolute", "absolute_py": "with_py", "subdir": "subdir", "module_name": "module_name"}[sp]] = 1
     sit["decoy_present"] = int(sp != "module_name")
+    sit["plugin_section_with_module_only"] = int(case["idx"] % 3 == 0)
     # --- scenario
     start = C.T0
     late = int(rng.integers(1, ns)) if ns > 1 else 0
     rows = [[start, 6.0 + k, 5.0 + 0.5 * k, 2.0] for k in range(3)]
     if late:
         rows += [[str(tadd(start, late * dt)), 7.5, 6.5, 3.0], [str(tadd(start, late * dt)), 8.5, 5.5, 3.0]]
-    kill_step = int(rng.integers(0, ns)) if ns > 2 and rng.random() < 0.7 else None
+    kill_step = int(rng.integers(0, ns)) if ns > 2 and rng.random() < 0.7 and case["idx"] % 3 else None
     kills = {str(kill_step): [1]} if kill_step is not None else {}
     coef = dict(a=3.0, b=0.25, c=-0.5, e=1.0e-3)
     sp_u = 0.2 * 1000.0 / dt
     run: dict[str, Any] = dict(start=start, stop=str(tadd(start, ns * dt)), dt=dt, advection="EF",
                                release=dict(columns=["release_time", "X", "Y", "Z"], rows=rows, header=True),
                                state=dict(instance_variables=dict(temp="float"), default_values=dict(temp=0.0)),
-                               ibm=dict(module=modspec["ibm"], kill=kills, log=True),
+                               ibm=dict(module=modspec["ibm"], kill=kills, log=True) if case["idx"] % 3 else dict(module=modspec["ibm"]),  # every third case: `module:` only
                                output=dict(period=P * dt, instance=dict(pid="i4", X="f8", Y="f8", Z="f8", temp="f8"), numrec=2 if case["warm"] else 0))
     world = None
     if variant == "stock":
